@@ -3,13 +3,13 @@ import TunnoxModel.Spec.C15
 /-!
 Line protocol for C15.
 
-case  := `st <store> cas <0|1> ttl <ms> pre <n> (<kind> <id> <expMs>)* thr <n> (<inst> <nops> op*)* sch <n> (<0 tid | 1 dt>)*`
+case  := `st <store> cas <0|1> ttl <ms> pre <n> (<kind> <id> <expMs>)* thr <n> (<inst> <nops> op*)* sch <n> (<0 tid | 1 dt | 2 tid>)*`   (2 = the storage call of this step fails)
 op    := `g <kind> <plen> <p>*` | `r <kind> <id>` | `o` (release own) | `w` (renew own)
          candidate of attempt a = p[a % plen]; kind 0: p = raw 64-bit random value (id = clientCand p);
          kinds 1..3: p = the id as a number (base-|Charset| reading of the 8 random characters);
          kind 9 (node slot): candidate = NodeIDMin + a.
 obs   := event* `|` viewkey*
-event := `ok.<tid>.<kind>.<id>` | `exh.<tid>.<kind>` | `rel.<tid>.<kind>.<id>` | `rnw.<tid>.<kind>.<id>` | `nop.<tid>` | `tick.<dt>`
+event := `ok.<tid>.<kind>.<id>` | `exh.<tid>.<kind>` | `rel.<tid>.<kind>.<id>` | `rnw.<tid>.<kind>.<id>` | `nop.<tid>` | `err.<tid>` | `tick.<dt>`
 ids are printed as the real code prints them (`10000002`, `pmap_AAAAAAAB`, `node-0001`).
 -/
 namespace Tunnox.Drv.C15
@@ -68,6 +68,7 @@ def renderEv : Ev → String
   | .rel t k i => s!"rel.{t}.{k}.{renderId k i}"
   | .rnw t k i => s!"rnw.{t}.{k}.{renderId k i}"
   | .nop t => s!"nop.{t}"
+  | .err t => s!"err.{t}"
   | .tick d => s!"tick.{d}"
 
 def keyLe (a b : Key) : Bool := a.1 < b.1 || (a.1 == b.1 && a.2 ≤ b.2)
@@ -84,6 +85,7 @@ def parseEv (tok : String) : Option Ev :=
   | ["rel", t, k, i] => do let t ← t.toNat?; let k ← k.toNat?; let i ← parseId k i; pure (.rel t k i)
   | ["rnw", t, k, i] => do let t ← t.toNat?; let k ← k.toNat?; let i ← parseId k i; pure (.rnw t k i)
   | ["nop", t] => do let t ← t.toNat?; pure (.nop t)
+  | ["err", t] => do let t ← t.toNat?; pure (.err t)
   | ["tick", d] => do let d ← d.toNat?; pure (.tick d)
   | _ => none
 
@@ -154,6 +156,7 @@ def parseSched : Nat → List String → Option (List Sch)
   | 0, [] => some []
   | n + 1, "0" :: t :: ts => do let t ← t.toNat?; let r ← parseSched n ts; pure (.step t :: r)
   | n + 1, "1" :: d :: ts => do let d ← d.toNat?; let r ← parseSched n ts; pure (.tick d :: r)
+  | n + 1, "2" :: t :: ts => do let t ← t.toNat?; let r ← parseSched n ts; pure (.fault t :: r)
   | _, _ => none
 
 def parseCase (ts : List String) : Option Case :=
